@@ -76,6 +76,10 @@ impl WriteBatch {
 
 struct KeyValueStoreState {
     seq_no: u64,
+    // The read timestamp.  Every write with a sequence number at or below this one has finished
+    // inserting into its memtable; `seq_no` itself also counts the writes still in flight, and a
+    // reader at `seq_no` would see the first entries of a batch without the rest.
+    visible_seq_no: u64,
     imm: Option<Arc<MemTable>>,
     imm_trigger: u64,
     mem: Arc<MemTable>,
@@ -120,6 +124,7 @@ impl KeyValueStore {
         seq_no += 1;
         let state = Mutex::new(KeyValueStoreState {
             seq_no,
+            visible_seq_no: seq_no,
             imm,
             imm_trigger,
             mem,
@@ -360,7 +365,7 @@ impl KeyValueStore {
         drop(seen);
         let mut keep = keep.into_iter();
         batch.entries.retain(|_| keep.next().unwrap_or(true));
-        let (mut wait_guard, memtable, log) = {
+        let (mut wait_guard, memtable, log, seq_no) = {
             let mut state = self.state.lock().unwrap();
             let wait_guard = self.wait_list.link(());
             let seq_no = state.seq_no + 1;
@@ -377,6 +382,7 @@ impl KeyValueStore {
                 wait_guard,
                 Arc::clone(&state.mem),
                 Arc::clone(&state.mem_log),
+                seq_no,
             )
         };
         #[cfg(blue_verif)]
@@ -397,6 +403,9 @@ impl KeyValueStore {
         while !wait_guard.is_head() {
             state = wait_guard.naked_wait(state);
         }
+        // Writers leave the wait list in the order they were given their sequence numbers, so every
+        // write up to and including this one is now complete: publish it to readers.
+        state.visible_seq_no = seq_no;
         drop(wait_guard);
         #[cfg(blue_verif)]
         verif_events::event("w_done", 0, 0, 0);
@@ -412,7 +421,7 @@ impl KeyValueStore {
             let version = self.tree.take_snapshot();
             #[cfg(blue_verif)]
             verif_events::event("snap", state.mem_seq_no, state.imm.is_some() as u64, 0);
-            (mem, imm, version, state.seq_no)
+            (mem, imm, version, state.visible_seq_no)
         };
         #[cfg(blue_verif)]
         verif_events::point("snap_ts", timestamp, 0, 0);
@@ -449,7 +458,7 @@ impl KeyValueStore {
             let version = self.tree.take_snapshot();
             #[cfg(blue_verif)]
             verif_events::event("snap", state.mem_seq_no, state.imm.is_some() as u64, 0);
-            (mem, imm, version, state.seq_no)
+            (mem, imm, version, state.visible_seq_no)
         };
         #[cfg(blue_verif)]
         verif_events::point("snap_ts", timestamp, 0, 0);
